@@ -957,6 +957,13 @@ func (g *genDeepCopy) doPointer(t *types.Type, sw *generator.SnippetWriter) {
 	ut := underlyingType(t)
 	uet := underlyingType(ut.Elem)
 
+	// A defined pointer type (type P *T) has no methods, not even those of T:
+	// call them on the pointee.
+	recv := generator.Args{"recv": "(*in)"}
+	if ut.Name.Package != "" {
+		recv["recv"] = "(**in)"
+	}
+
 	dc, dci := deepCopyMethodOrDie(ut.Elem), deepCopyIntoMethodOrDie(ut.Elem)
 	switch {
 	case dc != nil || dci != nil:
@@ -965,9 +972,9 @@ func (g *genDeepCopy) doPointer(t *types.Type, sw *generator.SnippetWriter) {
 			rightPointer = dc.Results[0].Kind == types.Pointer
 		}
 		if rightPointer {
-			sw.Do("*out = (*in).DeepCopy()\n", nil)
+			sw.Do("*out = $.recv$.DeepCopy()\n", recv)
 		} else {
-			sw.Do("x := (*in).DeepCopy()\n", nil)
+			sw.Do("x := $.recv$.DeepCopy()\n", recv)
 			sw.Do("*out = &x\n", nil)
 		}
 	case uet.IsAssignable():
@@ -981,7 +988,7 @@ func (g *genDeepCopy) doPointer(t *types.Type, sw *generator.SnippetWriter) {
 		sw.Do("}\n", nil)
 	case uet.Kind == types.Struct:
 		sw.Do("*out = new($.Elem|raw$)\n", ut)
-		sw.Do("(*in).DeepCopyInto(*out)\n", nil)
+		sw.Do("$.recv$.DeepCopyInto(*out)\n", recv)
 	default:
 		klog.Fatalf("Hit an unsupported type %v for %v", uet, t)
 	}
